@@ -80,7 +80,8 @@ pub enum CT {
     Json,
     JsonBinary,
     Uuid,
-    Enum,
+    /// an enumeration with the given type name (SQLite derives a column's affinity from substrings of the declared type)
+    Enum(&'static str),
 }
 
 pub fn all_types() -> Vec<CT> {
@@ -89,7 +90,8 @@ pub fn all_types() -> Vec<CT> {
         CT::TinyInteger, CT::SmallInteger, CT::Integer, CT::BigInteger, CT::TinyUnsigned, CT::SmallUnsigned, CT::Unsigned, CT::BigUnsigned,
         CT::Float, CT::Double, CT::Decimal(None), CT::Decimal(Some((10, 2))), CT::Decimal(Some((16, 0))),
         CT::DateTime, CT::Timestamp, CT::TimestampWithTimeZone, CT::Time, CT::Date, CT::Binary(1), CT::Binary(16), CT::VarBinary(255), CT::VarBinaryNone, CT::VarBinaryMax, CT::Boolean,
-        CT::Money(None), CT::Money(Some((19, 4))), CT::Json, CT::JsonBinary, CT::Uuid, CT::Enum,
+        CT::Money(None), CT::Money(Some((19, 4))), CT::Json, CT::JsonBinary, CT::Uuid,
+        CT::Enum("e"), CT::Enum("tint"), CT::Enum("print_mode"), CT::Enum("blobby"), CT::Enum("real_kind"), CT::Enum("floating"), CT::Enum("doubles"), CT::Enum("charm"), CT::Enum("font-size"), CT::Enum("two words"),
     ]
 }
 
@@ -139,7 +141,7 @@ impl CT {
             CT::Json => c.json(),
             CT::JsonBinary => c.json_binary(),
             CT::Uuid => c.uuid(),
-            CT::Enum => c.enumeration(a("e"), [a("x"), a("y")]),
+            CT::Enum(name) => c.enumeration(a(name), [a("x"), a("y")]),
         };
     }
     /// the affinity intended for the abstract type
@@ -439,6 +441,9 @@ pub struct TableS {
     if_not_exists: bool,
     /// a second foreign key (`id` -> p.id, ON DELETE CASCADE); both keys are then declared without a name
     fk2: bool,
+    /// the primary key and the unique constraint are declared through ONE index builder, reused after `primary_key`
+    /// (which takes the builder's content and must leave a fresh builder behind)
+    shared: bool,
 }
 
 fn act_sql(x: ForeignKeyAction) -> &'static str {
@@ -459,7 +464,14 @@ fn check_table(t: &TableS) -> Result<bool, (String, String)> {
             s.if_not_exists();
         }
         s.col(ColumnDef::new(a("id")).integer().not_null()).col(ColumnDef::new(a("a")).integer()).col(ColumnDef::new(a("b")).string().default("d"));
+        let mut key = Index::create();
         match t.pk {
+            1 if t.shared => {
+                s.primary_key(key.col(a("id")));
+            }
+            2 if t.shared => {
+                s.primary_key(key.col(a("id")).col(a("a")));
+            }
             1 => {
                 s.primary_key(Index::create().col(a("id")));
             }
@@ -468,12 +480,14 @@ fn check_table(t: &TableS) -> Result<bool, (String, String)> {
             }
             _ => {}
         }
+        let mut fresh = Index::create();
+        let uqb = if t.shared { &mut key } else { &mut fresh };
         match t.uq {
             1 => {
-                s.index(Index::create().unique().name("u1").col(a("a")));
+                s.index(uqb.unique().name("u1").col(a("a")));
             }
             2 => {
-                s.index(Index::create().unique().name("u2").col((a("a"), IndexOrder::Desc)).col(a("b")));
+                s.index(uqb.unique().name("u2").col((a("a"), IndexOrder::Desc)).col(a("b")));
             }
             _ => {}
         }
@@ -688,15 +702,18 @@ pub fn run(rep: &Arc<Report>) {
         for uq in 0..3u8 {
             for check in [false, true] {
                 for ine in [false, true] {
-                    tables.push(TableS { pk, uq, fk: None, check, if_not_exists: ine, fk2: false });
+                    tables.push(TableS { pk, uq, fk: None, check, if_not_exists: ine, fk2: false, shared: false });
+                    if pk > 0 && uq > 0 {
+                        tables.push(TableS { pk, uq, fk: None, check, if_not_exists: ine, fk2: false, shared: true });
+                    }
                     for od in acts {
                         for ou in acts {
                             if ine && (pk > 0 || uq > 0) {
                                 continue;
                             }
-                            tables.push(TableS { pk, uq, fk: Some((od, ou)), check, if_not_exists: ine, fk2: false });
+                            tables.push(TableS { pk, uq, fk: Some((od, ou)), check, if_not_exists: ine, fk2: false, shared: false });
                             if od.is_none() || ou.is_none() {
-                                tables.push(TableS { pk, uq, fk: Some((od, ou)), check, if_not_exists: ine, fk2: true });
+                                tables.push(TableS { pk, uq, fk: Some((od, ou)), check, if_not_exists: ine, fk2: true, shared: false });
                             }
                         }
                     }
@@ -706,7 +723,7 @@ pub fn run(rep: &Arc<Report>) {
     }
     par_items(&tables, |_w, t| {
         if let Err((sig, det)) = check_table(t) {
-            record("table", &sig, format!("{:?}", t), format!("table {:?}: {}", t, det), json!({"kind": "table", "spec": format!("{:?}", t), "pk": t.pk, "uq": t.uq, "check": t.check, "if_not_exists": t.if_not_exists, "fk2": t.fk2, "fk": t.fk.map(|(a, b)| (a.map(|x| act_sql(x)), b.map(|x| act_sql(x))))}));
+            record("table", &sig, format!("{:?}", t), format!("table {:?}: {}", t, det), json!({"kind": "table", "spec": format!("{:?}", t), "pk": t.pk, "uq": t.uq, "check": t.check, "if_not_exists": t.if_not_exists, "fk2": t.fk2, "shared": t.shared, "fk": t.fk.map(|(a, b)| (a.map(|x| act_sql(x)), b.map(|x| act_sql(x))))}));
         }
     });
     // (3)
@@ -789,7 +806,7 @@ pub fn replay(case: &serde_json::Value) -> Option<String> {
         "table" => {
             let act = |v: &serde_json::Value| -> Option<ForeignKeyAction> { [ForeignKeyAction::Restrict, ForeignKeyAction::Cascade, ForeignKeyAction::SetNull, ForeignKeyAction::NoAction, ForeignKeyAction::SetDefault].into_iter().find(|x| Some(act_sql(*x)) == v.as_str()) };
             let fk = if serde_json::Value::is_null(&case["fk"]) { None } else { Some((act(&case["fk"][0]), act(&case["fk"][1]))) };
-            let t = TableS { pk: case["pk"].as_u64().unwrap_or(0) as u8, uq: case["uq"].as_u64().unwrap_or(0) as u8, fk, check: case["check"].as_bool().unwrap_or(false), if_not_exists: case["if_not_exists"].as_bool().unwrap_or(false), fk2: case["fk2"].as_bool().unwrap_or(false) };
+            let t = TableS { pk: case["pk"].as_u64().unwrap_or(0) as u8, uq: case["uq"].as_u64().unwrap_or(0) as u8, fk, check: case["check"].as_bool().unwrap_or(false), if_not_exists: case["if_not_exists"].as_bool().unwrap_or(false), fk2: case["fk2"].as_bool().unwrap_or(false), shared: case["shared"].as_bool().unwrap_or(false) };
             check_table(&t).err().map(|(sig, det)| format!("table {:?}: [{sig}] {det}", t))
         }
         _ => Some("MACHINERY: unknown replay kind".into()),
